@@ -483,6 +483,23 @@ func checkRow(f *syntax.File, src []byte, srcComments []string, lang syntax.Lang
 			failSig("not-idempotent", sigDiffText(string(out), buf2.String()), buf2.String(), string(out))
 		}
 	}
+	// C02 with Simplify first (what `shfmt -s` / `-mn` do): Print(Simplify(Parse(.))) must be a fixed point too.
+	if !keepPad {
+		if fs, err := parseSrc(src, lang); err == nil {
+			syntax.Simplify(fs)
+			var b1, b2 bytes.Buffer
+			if err := syntax.NewPrinter(printerOpts(row)...).Print(&b1, fs); err != nil {
+				fail("reprint-error", "after Simplify: "+err.Error(), "")
+			} else if re1, err := parseSrc(b1.Bytes(), lang); err != nil {
+				failSig("reparse-error", "after Simplify: "+sigParseError(err.Error(), b1.String()), err.Error(), b1.String())
+			} else {
+				syntax.Simplify(re1)
+				if err := syntax.NewPrinter(printerOpts(row)...).Print(&b2, re1); err == nil && !bytes.Equal(b1.Bytes(), b2.Bytes()) {
+					failSig("not-idempotent", "after Simplify: "+sigDiffText(b1.String(), b2.String()), b2.String(), b1.String())
+				}
+			}
+		}
+	}
 	if v.Sub {
 		subNodeChecks(f, re, lang, row, func(_ string, _ [2]int, kind, detail, out string) {
 			sig := detail
